@@ -312,7 +312,7 @@ func insertVisitor.VisitMutateOp
   props C04
   requires InsOK(v)
   may_panic
-  modifies v.mutations, cachePuts
+  modifies v.mutations, v.mutations[*], cachePuts
   ensures C04/mutate-passes-through: bytes(result) == evalI(op.operation, v.cache)
 
 // the cache holds the true hash of every subtree completed before version V
@@ -475,9 +475,25 @@ func HistoryTree.AddBulk
 func HistoryTree.ProveMembership
   modifies everything, proveCalls, lastProveVersion
   assumes proveCalls == old(proveCalls) + 1 && lastProveVersion == version
+// C03, the prover's wiring (that the pruning collects every node the verifier will read is the
+// prover's completeness, not decided): a consistency proof for (start, end) carries those two
+// versions and the audit path collected from THE CONSISTENCY PRUNING OF THAT PAIR - for every
+// pair, start == end included (the membership pruning collects the left siblings only, not the
+// leaf the incremental verifier reads: an honest proof built from it is rejected).
+// ASSUMED (definition of the ghosts; the pruning itself is not verified):
+func pruneToCheckConsistency
+  modifies consPrunes, lastConsStart, lastConsEnd
+  assumes consPrunes == old(consPrunes) + 1 && lastConsStart == start && lastConsEnd == end && !isnil(result)
+// a history tree that can hand out proofs: its hasher factory is there and returns hashers
+define HistProver(t) = t != nil && t.hasherF != nil && nonnil_fn(t.hasherF)
 func HistoryTree.ProveConsistency
-  modifies everything
+  props C03
+  requires HistProver(t)
+  unchecked_panics
+  modifies everything, consPrunes, lastConsStart, lastConsEnd
   ensures isnil(result_1) ==> result_0 != nil
+  ensures C03/proof-carries-the-pair-asked: isnil(result_1) ==> result_0.StartVersion == start && result_0.EndVersion == end
+  ensures C03/path-from-the-consistency-pruning-of-the-pair: isnil(result_1) ==> consPrunes == old(consPrunes) + 1 && lastConsStart == start && lastConsEnd == end
 func HistoryTree.Close
   modifies everything
 
